@@ -1,241 +1,171 @@
 import SFV.Lemmas.RegistryInv
-import SFV.Lemmas.RegistryWitness
 /-! # C21 — the data-location registry answers consistently with its history
 
-`_RemotePathMapper` / `DefaultDataManager` (`streamflow/data/manager.py`), modelled as written in
-`SFV/Model/Registry.lean` (trie nodes, `locations` lists of `DataLocation` *objects*, the `valid_paths` cache, a heap of
-objects whose validity is mutated in place). Two defects of the unchanged code are proved on witnesses; the partial
-statements say what does hold. -/
+`_RemotePathMapper` / `DefaultDataManager` (`streamflow/data/manager.py`) **after fix 5f6015f** (invalidation walks the node
+sub-tree structurally; `put` stops only at a still-valid location), modelled as written in `SFV/Model/Registry.lean` (trie
+nodes, `locations` lists of `DataLocation` *objects*, the `valid_paths` cache, a heap of objects whose validity is mutated
+in place). The three defects of the code before the fix (stale `valid_paths`, `RecursionError`, skipped sub-tree) are gone:
+the statements that were `_partial` or false are proved below for every history, relations included. -/
 namespace SFV.C21
 open SFV.Registry
 
-def pa : Path := ["/", "a"]
-def paf : Path := ["/", "a", "f"]
-def pbg : Path := ["/", "b", "g"]
+/-- the operations of a history; a relation names two existing `DataLocation` objects -/
+inductive Op where
+  | register (l : Nat) (p : Path)
+  | relate (src dst : Nat)
+  | invalidate (l : Nat) (p : Path)
 
-/-! ### defect 1: stale `valid_paths` -/
+def apply (s : St) : Op → St
+  | .register l p => (register s l p).1
+  | .relate a b => if a < s.heap.length ∧ b < s.heap.length then relate s a b else s
+  | .invalidate l p => match invalidate s l p with
+                       | .ok s' => s'
+                       | .keyError => s
 
-/-- register A:/a/f, register B:/b/g, relate them, invalidate B:/b/g, register B:/b/g again -/
-def h12 : St :=
-  let s1 := register St.init 0 paf                  -- object 0 (+ ancestors)
-  let s2 := register s1.1 1 pbg
-  let s3 := relate s2.1 s1.2 s2.2
-  match invalidate 1000 s3 1 pbg with
-  | .ok s4 => (register s4 1 pbg).1
-  | _ => St.init
+def run (ops : List Op) : St := ops.foldl apply St.init
 
-/-- the object created by the second registration of B:/b/g -/
-def o12 : Nat := h12.heap.length - 1
+theorem winv_foldl (ops : List Op) (s : St) (h : WInv s) : WInv (ops.foldl apply s) := by
+  induction ops generalizing s with
+  | nil => exact h
+  | cons op ops ih =>
+    apply ih
+    cases op with
+    | register l p => exact winv_register s h l p
+    | relate a b =>
+      simp only [apply]
+      split
+      · rename_i hc; exact winv_relate s h a b hc.2
+      · exact h
+    | invalidate l p =>
+      simp only [apply, invalidate]
+      split
+      · rename_i heq; split at heq
+        · cases heq
+        · injection heq with heq; subst heq; exact winv_invNode _ s l p h
+      · exact h
 
-/-- **relate after invalidate is ignored**: after relating A:/a/f with the *new, valid* B:/b/g object, `/a/f` is still
-not available on B — the node of `/a/f` keeps `/b/g` in its `valid_paths` although no valid object there carries that
-path (the cache-free registry `specValid` says so), and `put` stops at that test. The full statement
-`registry_refines_spec` is therefore false of the code. -/
-theorem relate_after_invalidate_ignored :
-    objValid h12 o12 = true ∧ objPath h12 o12 = pbg ∧ objLoc h12 o12 = 1 ∧
-    getLocs (relate h12 0 o12) paf 1 = [] ∧
-    pbg ∈ (relate h12 0 o12).vpaths paf 1 ∧ specValid (relate h12 0 o12) paf 1 pbg = false := by
-  decide +kernel
+/-- every reachable registry satisfies the invariant used below -/
+theorem reachable_winv (ops : List Op) : WInv (run ops) := winv_foldl ops St.init winv_init
 
-/-- register L:/b/g, L:/e, relate them, invalidate L:/e (this also invalidates the shared /b/g object) -/
-def h12b : St :=
-  let s1 := register St.init 0 pbg
-  let s2 := register s1.1 0 pe
-  let s3 := relate s2.1 s2.2 s1.2
-  match invalidate 1000 s3 0 pe with
-  | .ok s4 => s4
-  | _ => St.init
+/-- **`registry_refines_spec`** (full strength, every history of registrations, relations and invalidations): a valid
+object stored at a node always has its path listed in that node's `valid_paths`, hence the test `put` makes
+(`path in valid_paths and some still-valid location carries it`) is exactly the test of the registry without the cache. -/
+theorem registry_refines_spec (ops : List Op) (np : Path) (l : Nat) (p : Path) :
+    (specValid (run ops) np l p = true → p ∈ (run ops).vpaths np l) ∧
+    ((p ∈ (run ops).vpaths np l ∧ specValid (run ops) np l p = true) ↔ specValid (run ops) np l p = true) := by
+  have h := reachable_winv ops
+  have h1 : specValid (run ops) np l p = true → p ∈ (run ops).vpaths np l := by
+    intro hs
+    simp only [specValid, List.any_eq_true, Bool.and_eq_true, beq_iff_eq] at hs
+    obtain ⟨o, ho, hv, hp⟩ := hs
+    rw [← hp]; exact h.listed np l o ho hv
+  exact ⟨h1, ⟨fun x => x.2, fun x => ⟨h1 x, x⟩⟩⟩
 
-/-- **re-registering does not make the path available again** when the stale entry sits in the path's own node -/
-theorem reregister_after_invalidate_ignored :
-    getLocs h12b pbg 0 = [] ∧ getLocs (register h12b 0 pbg).1 pbg 0 = [] := by
-  decide +kernel
+/-- **`invalidate_total`**: `invalidate_location` always returns — `KeyError` exactly when the node does not exist, a new
+state otherwise (the walk is a structural recursion over the finite tree; `invalidate_subtree` shows that its depth budget,
+the height of the tree, never cuts the walk short). -/
+theorem invalidate_total (s : St) (l : Nat) (p : Path) :
+    (invalidate s l p = .keyError ↔ (p ≠ [] ∧ p ∉ s.nodes)) ∧
+    (¬ (p ≠ [] ∧ p ∉ s.nodes) → ∃ s', invalidate s l p = .ok s') := by
+  unfold invalidate
+  by_cases h : p ≠ [] ∧ p ∉ s.nodes
+  · simp [h]
+  · simp [h]
 
-/-! ### defect 3: a subtree is skipped -/
-
-def pb : Path := ["/", "b"]
-def pbea : Path := ["/", "b", "e", "a"]
-def pbeaf : Path := ["/", "b", "e", "a", "f"]
-
-/-- register B:/b/e/a, A:/b, B:/b/e/a/f, relate A:/b with B:/b/e/a (the B object is now also stored at the node `/b`),
-invalidate B:"/" -/
-def h3 : St :=
-  let s1 := register St.init 1 pbea
-  let s2 := register s1.1 0 pb
-  let s3 := register s2.1 1 pbeaf
-  let s4 := relate s3.1 s2.2 s1.2
-  match invalidate 1000 s4 1 ["/"] with
-  | .ok s5 => s5
-  | _ => St.init
-
-/-- **invalidating the root leaves `/b/e/a/f` available on that location**: the object of `/b/e/a` is invalidated while
-the walk is at `/b` (where the relation stored it); when the walk reaches `/b/e`, the node `/b/e/a` holds no valid
-object any more, so the walk does not enter it and never sees `/b/e/a/f`. `invalidate_subtree_only` is false. -/
-theorem invalidate_misses_subtree :
-    getLocs h3 ["/"] 1 = [] ∧ getLocs h3 pbea 1 = [] ∧ getLocs h3 pbeaf 1 ≠ [] := by
-  decide +kernel
-
-/-! ### defect 2: `invalidate_location` does not terminate -/
-
-/-- **`invalidate_location(L, "/e")` is still running after any number of steps**: object 3 (the second registration
-of `/e`) is stored only in the child node `/e/f`, is never marked invalid, and sends the recursion back to `/e`. -/
-theorem invalidate_diverges : ∀ fuel, (∃ s, invalidate fuel s21 0 pe = .ok s) → False := by
-  have hf := s21m_facts
-  obtain ⟨h1, h1m, hc, hcm, hl, hv0, hv3, hl3, hp3⟩ := hf
-  -- on the fixed point nothing ever returns
-  have key : ∀ fuel,
-      (∀ s, invalidate fuel s21m 0 pe ≠ .ok s) ∧ (∀ s, childLoop fuel s21m 0 [pef] ≠ .ok s) ∧
-      (∀ s, entryLoop fuel s21m 0 [0, 3] ≠ .ok s) ∧ (∀ s, entryLoop fuel s21m 0 [3] ≠ .ok s) := by
-    intro fuel
-    induction fuel with
-    | zero => simp [invalidate, childLoop, entryLoop]
-    | succ f ih =>
-      obtain ⟨iA, iB, iC, iD⟩ := ih
-      refine ⟨?_, ?_, ?_, ?_⟩
-      · intro s
-        simp only [invalidate, if_neg h1m, s21m_fix, hcm]
-        exact iB s
-      · intro s
-        simp only [childLoop, hl]
-        cases hC : entryLoop f s21m 0 [0, 3] with
-        | ok s' => exact absurd hC (iC s')
-        | keyError => simp
-        | recursion => simp
-      · intro s
-        simp only [entryLoop, hv0]
-        exact iD s
-      · intro s
-        simp only [entryLoop, hv3, if_true, hl3, hp3]
-        cases hA : invalidate f s21m 0 pe with
-        | ok s' => exact absurd hA (iA s')
-        | keyError => simp
-        | recursion => simp
-  intro fuel ⟨s, hs⟩
-  cases fuel with
-  | zero => simp [invalidate] at hs
-  | succ f =>
-    simp only [invalidate, if_neg h1, hc] at hs
-    exact (key f).2.1 s hs
-
-/-! ### what does hold -/
-
-/-- `get_data_locations` never returns an invalid location (`source_is_valid_primary`, as far as validity goes) -/
-theorem get_returns_valid_only (s : St) (p : Path) (l : Nat) : ∀ o ∈ getLocs s p l, objValid s o = true := by
-  intro o ho
-  simp only [getLocs, List.mem_filter] at ho
-  exact ho.2
-
-/-- **`invalidate_location` only invalidates** (when it returns): no object becomes valid, no entry, node, path or
-location of an object changes, the heap keeps its size — and every object stored at the invalidated node for that
-location is invalid afterwards (`invalidate_total` is false, see `invalidate_diverges`; this is the part that holds). -/
-theorem invalidate_only_invalidates_partial (fuel : Nat) (s s' : St) (l : Nat) (p : Path)
-    (h : invalidate fuel s l p = .ok s') :
-    s'.heap.length = s.heap.length ∧ s'.nodes = s.nodes ∧ s'.locs = s.locs ∧
-    (∀ o, objValid s' o = true → objValid s o = true) ∧
-    (∀ o ∈ s.locs p l, objValid s' o = false) ∧ getLocs s' p l = [] := by
-  have hs := (shrinks_invalidate fuel).1 s l p s' h
-  have hmark : ∀ o ∈ s.locs p l, objValid s' o = false := by
+/-- **`invalidate_subtree`**: after `invalidate_location(L, P)` on a reachable registry, nothing is reported available on `L`
+at `P` or at any node beneath it; no object stored under another location changes; and nothing but validity flags and
+`valid_paths` entries changes at all (no object becomes valid, entries, nodes, paths and locations of objects stay). -/
+theorem invalidate_subtree (ops : List Op) (l : Nat) (p : Path) (s' : St) (h : invalidate (run ops) l p = .ok s') :
+    (∀ q, (q ∈ (run ops).nodes ∨ q = p) → p <+: q → getLocs s' q l = []) ∧
+    (∀ o, objLoc (run ops) o ≠ l → objValid s' o = objValid (run ops) o) ∧
+    (s'.locs = (run ops).locs ∧ s'.nodes = (run ops).nodes ∧ s'.heap.length = (run ops).heap.length ∧
+      ∀ o, objValid s' o = true → objValid (run ops) o = true) := by
+  have hW := reachable_winv ops
+  unfold invalidate at h
+  split at h
+  · cases h
+  · rename_i hex
+    injection h with h; subst h
+    have hs := shrinks_invNode (height (run ops)) (run ops) l p
+    refine ⟨?_, invNode_other _ _ l p hW, hs.locs, hs.nodes, hs.len, hs.valid⟩
+    intro q hq hpre
+    have hlen : q.length ≤ p.length + height (run ops) := by
+      rcases hq with hq | rfl
+      · have := le_height _ q hq; omega
+      · omega
+    simp only [getLocs, hs.locs]
+    apply List.filter_eq_nil_iff.mpr
     intro o ho
-    cases fuel with
-    | zero => simp [invalidate] at h
-    | succ f =>
-      simp only [invalidate] at h
-      split at h
-      · cases h
-      · have h2 := (shrinks_invalidate f).2.1 _ _ _ _ h
-        cases hv : objValid s' o with
-        | false => rfl
-        | true =>
-          have := h2.valid o hv
-          rw [markLoop_invalid p l (s.locs p l) s o ho] at this
-          cases this
-  refine ⟨hs.len, hs.nodes, hs.locs, hs.valid, hmark, ?_⟩
-  simp only [getLocs, hs.locs]
-  apply List.filter_eq_nil_iff.mpr
-  intro o ho
-  simp [hmark o ho]
+    simp [invNode_reaches _ _ l p q hW hq hpre hlen o ho]
 
-/-- **re-registration makes the path available again — provided the node does not still believe the path valid**
-(the hypothesis `p ∉ s.vpaths p l` is exactly what the stale cache breaks, see `reregister_after_invalidate_ignored`):
-the new object is stored at the node of `p` for `l` and is returned by `get_data_locations`. -/
-theorem reregister_available_partial (s : St) (l : Nat) (p : Path) (hp : p ≠ []) (hv : p ∉ s.vpaths p l) :
-    (register s l p).2 ∈ getLocs (register s l p).1 p l := by
+/-- **`reregister_available`** (full strength): on every reachable registry a registration makes the path available on that
+location — whatever was invalidated or related before. -/
+theorem reregister_available (ops : List Op) (l : Nat) (p : Path) (hp : p ≠ []) :
+    getLocs (register (run ops) l p).1 p l ≠ [] := by
+  have hW := reachable_winv ops
+  generalize run ops = s at hW
   obtain ⟨init, hpre, hlen⟩ := prefixes_snoc p hp
   have hrev : (prefixes p).reverse = p :: init.reverse := by rw [hpre]; simp
   have hne : ∀ np ∈ init.reverse, np ≠ p := by
     intro np hnp e
     have := hlen np (by simpa using hnp)
     rw [e] at this; omega
-  simp only [register, put, hrev, if_true]
-  -- the object just allocated
   have hl : objLoc ⟨s.heap ++ [⟨l, p, true⟩], s.nodes, s.locs, s.vpaths⟩ s.heap.length = l := by simp [objLoc]
   have hpth : objPath ⟨s.heap ++ [⟨l, p, true⟩], s.nodes ++ prefixes p, s.locs, s.vpaths⟩ s.heap.length = p := by
     simp [objPath]
-  simp only [hl, putLoop, if_true, hpth]
-  rw [if_neg hv]
-  obtain ⟨hk1, hk2⟩ := putLoop_keeps l s.heap.length p init.reverse
-    { heap := s.heap ++ [⟨l, p, true⟩], nodes := s.nodes ++ prefixes p,
-      locs := upd s.locs p l (s.locs p l ++ [s.heap.length]), vpaths := upd s.vpaths p l (s.vpaths p l ++ [p]) } hne
-  simp only [getLocs, List.mem_filter]
-  refine ⟨?_, ?_⟩
-  · rw [hk1]; simp [upd]
-  · simp only [objValid]
-    rw [hk2 s.heap.length (by simp)]
-    simp
-
-/-- **`registry_refines_spec_partial`**: for every history of registrations and invalidations (no relations) the
-`valid_paths` cache is exact — a path is believed valid at a node iff the cache-free registry (`specValid`: some valid
-object with that path is stored there) says so — every stored object sits in the node of its own path under its own
-location, and therefore `put`'s `valid_paths` test is the cache-free test. The full statement (with relations) is false:
-`relate_after_invalidate_ignored`. -/
-theorem registry_refines_spec_partial (ops : List ROp) :
-    (∀ np l p, p ∈ (runR ops).vpaths np l ↔ specValid (runR ops) np l p = true) ∧
-    (∀ np l o, o ∈ (runR ops).locs np l → objPath (runR ops) o = np ∧ objLoc (runR ops) o = l) := by
-  have h := rinv_runR ops
-  refine ⟨?_, fun np l o ho => ⟨(h.own np l o ho).2.1, (h.own np l o ho).2.2⟩⟩
-  intro np l p
-  rw [h.cache np l p]
-  simp only [specValid, List.any_eq_true, Bool.and_eq_true, beq_iff_eq]
-  constructor
-  · rintro ⟨rfl, o, ho, hv⟩; exact ⟨o, ho, hv, (h.own _ l o ho).2.1⟩
-  · rintro ⟨o, ho, hv, hp⟩; exact ⟨((h.own np l o ho).2.1.symm.trans hp).symm, o, ho, hv⟩
-
-/-- consequence for such histories: **re-registration always makes the path available again**, and so does registering
-below an invalidated directory -/
-theorem reregister_available_norel (ops : List ROp) (l : Nat) (p : Path) (hp : p ≠ []) :
-    getLocs (register (runR ops) l p).1 p l ≠ [] := by
-  have hc := (registry_refines_spec_partial ops).1 p l p
-  by_cases hv : p ∈ (runR ops).vpaths p l
-  · -- already believed valid: by exactness a valid object is stored there, and `register` keeps it
-    have hspec := hc.mp hv
-    simp only [specValid, List.any_eq_true, Bool.and_eq_true, beq_iff_eq] at hspec
-    obtain ⟨o, ho, hval, _⟩ := hspec
-    obtain ⟨init, hpre, hlen⟩ := prefixes_snoc p hp
-    have hrev : (prefixes p).reverse = p :: init.reverse := by rw [hpre]; simp
-    have hl : objLoc ⟨(runR ops).heap ++ [⟨l, p, true⟩], (runR ops).nodes, (runR ops).locs, (runR ops).vpaths⟩
-        (runR ops).heap.length = l := by simp [objLoc]
-    have hpth : objPath ⟨(runR ops).heap ++ [⟨l, p, true⟩], (runR ops).nodes ++ prefixes p, (runR ops).locs, (runR ops).vpaths⟩
-        (runR ops).heap.length = p := by simp [objPath]
-    have hstop : (register (runR ops) l p).1 =
-        ⟨(runR ops).heap ++ [⟨l, p, true⟩], (runR ops).nodes ++ prefixes p, (runR ops).locs, (runR ops).vpaths⟩ := by
-      simp only [register, put, hrev, if_true, hl, putLoop, hpth]
-      rw [if_pos hv]
-    rw [hstop]
+  simp only [register, put, hrev, if_true, hl, putLoop, hpth]
+  split
+  · -- a valid location for the path is already stored there
+    rename_i hbreak
+    have hs := hbreak.2
+    simp only [specValid, List.any_eq_true, Bool.and_eq_true, beq_iff_eq] at hs
+    obtain ⟨o, ho, hv, _⟩ := hs
     intro hnil
-    have hlt : o < (runR ops).heap.length := by
-      have hinv : RInv (runR ops) := rinv_runR ops
-      exact (hinv.own p l o ho).1
-    have : o ∈ getLocs ⟨(runR ops).heap ++ [⟨l, p, true⟩], (runR ops).nodes ++ prefixes p, (runR ops).locs, (runR ops).vpaths⟩ p l := by
-      simp only [getLocs, List.mem_filter]
-      refine ⟨ho, ?_⟩
-      simp only [objValid] at hval ⊢
-      simp [List.getElem?_append_left hlt, hval]
+    have : o ∈ getLocs ⟨s.heap ++ [⟨l, p, true⟩], s.nodes ++ prefixes p, s.locs, s.vpaths⟩ p l := by
+      simp only [getLocs, List.mem_filter]; exact ⟨ho, hv⟩
     rw [hnil] at this; cases this
-  · intro hnil
-    have := reregister_available_partial (runR ops) l p hp hv
+  · obtain ⟨hk1, hk2⟩ := putLoop_keeps l s.heap.length p init.reverse
+      { heap := s.heap ++ [⟨l, p, true⟩], nodes := s.nodes ++ prefixes p,
+        locs := upd s.locs p l (s.locs p l ++ [s.heap.length]), vpaths := upd s.vpaths p l (setAddP (s.vpaths p l) p) } hne
+    intro hnil
+    have : s.heap.length ∈ getLocs (putLoop l s.heap.length p init.reverse
+        { heap := s.heap ++ [⟨l, p, true⟩], nodes := s.nodes ++ prefixes p,
+          locs := upd s.locs p l (s.locs p l ++ [s.heap.length]), vpaths := upd s.vpaths p l (setAddP (s.vpaths p l) p) }) p l := by
+      simp only [getLocs, List.mem_filter]
+      refine ⟨by rw [hk1]; simp [upd], ?_⟩
+      simp only [objValid]
+      rw [hk2 s.heap.length (by simp)]
+      simp
     rw [hnil] at this; cases this
 
-/-- non-vacuity of the witnesses: the states are the ones the comments describe -/
-example : s21.heap.length = 4 ∧ s21.locs pe 0 = [1, 0] ∧ s21.locs pef 0 = [0, 3] := by decide +kernel
+/-- `get_data_locations` never returns an invalid location -/
+theorem get_returns_valid_only (s : St) (p : Path) (l : Nat) : ∀ o ∈ getLocs s p l, objValid s o = true := by
+  intro o ho
+  simp only [getLocs, List.mem_filter] at ho
+  exact ho.2
+
+/-! ### regression guards: the three histories that failed before fix 5f6015f -/
+
+def paf : Path := ["/", "a", "f"]
+def pbg : Path := ["/", "b", "g"]
+def pe : Path := ["/", "e"]
+def pef : Path := ["/", "e", "f"]
+def pbea : Path := ["/", "b", "e", "a"]
+def pbeaf : Path := ["/", "b", "e", "a", "f"]
+
+/-- (false before fix 5f6015f: the second relation was ignored) register A:/a/f (object 0), B:/b/g (3), relate, invalidate
+B:/b/g, register B:/b/g again (6), relate: `/a/f` is available on B again -/
+example : getLocs (run [.register 0 paf, .register 1 pbg, .relate 0 3, .invalidate 1 pbg, .register 1 pbg, .relate 0 6]) paf 1 = [6] := by
+  decide +kernel
+
+/-- (did not terminate before fix 5f6015f) register L:/e/f, L:/e, relate them, invalidate L:/e: returns, and nothing is
+left available on L at `/e` or `/e/f` -/
+example : let s := run [.register 0 pef, .register 0 pe, .relate 0 3, .invalidate 0 pe]
+    getLocs s pe 0 = [] ∧ getLocs s pef 0 = [] := by
+  decide +kernel
+
+/-- (sub-tree skipped before fix 5f6015f) register B:/b/e/a, A:/b, B:/b/e/a/f, relate A:/b with B:/b/e/a, invalidate B:/ -/
+example : getLocs (run [.register 1 pbea, .register 0 ["/", "b"], .register 1 pbeaf, .relate 5 0, .invalidate 1 ["/"]]) pbeaf 1 = [] := by
+  decide +kernel
 
 end SFV.C21
